@@ -402,7 +402,9 @@ class Check:
         ref_vos = ["Refuted/" + os.path.basename(f)[:-2] + ".vo" for f in sorted(_glob.glob(os.path.join(COQ, "Refuted", f"{self.pid}_*.v")))]
         vo = " ".join(vos)
         with coq_lock():
-            st = gen.regenerate(self.groups)
+            # only this property's fragment groups are regenerated (none when it has no groups)
+            st = gen.regenerate(self.groups if self.groups else ["__no_group__"])
+            st.pop("Subproc", None) if not (self.groups and "Subproc" in self.groups) else None
             self.notes["fragments"] = st
             ensure_project()
             # force recompilation of the property files so that Print Assumptions is re-run
